@@ -6,9 +6,10 @@
    anything the property forbids still is.  Same log format as Trace_Cache.tla.
 
    A history satisfies C16 iff
-     Coherent      every lookup that hits returns exactly the payload of the latest `set` of that
-                   (route, host), stored at a time inside that set's clock window, and not older than
-                   the time limit at some instant of the lookup's window; it never carries another key;
+     Coherent      every lookup that hits returns exactly the payload (bytes, MIME type) of the latest
+                   `set` of that (route, host), and that set is not older than the time limit at some
+                   instant of the lookup's clock window (a panicking lookup is logged as a hit with an
+                   impossible payload);
      Immediate     a lookup of the key just stored (next record, clock windows all equal to one instant)
                    hits, when the stored size is within the limit; storing such an item does not panic
                    (a `set` record with aux = 2 is a call that panicked);
@@ -40,12 +41,14 @@ vars == <<l, last, m, need, bad>>
 Init == /\ l = 1 /\ last = [k \in Keys |-> NoLast] /\ bad = <<>>
         /\ m = N /\ need = [k \in Keys |-> -1]
 
+\* Only what the statement names is compared: the bytes (length + hash) and the MIME type of the hit, and
+\* its age - measured from the clock window of the `set` that stored it, NOT from the item's cache_time
+\* field (how an implementation represents the time of an entry, and which key strings it keeps inside
+\* the item, is its own business: rt and aux = 1 are not looked at).
 Coherent(e) ==
   e.hit => LET s == last[Key(e)]
-           IN  /\ e.aux = 0
-               /\ s.set /\ e.rsize = s.size /\ e.rhash = s.id /\ e.rmime = s.mime
-               /\ e.rt \in s.tlo..s.thi
-               /\ \E now \in e.lo..e.hi : now - e.rt <= TimeLimit
+           IN  /\ s.set /\ e.rsize = s.size /\ e.rhash = s.id /\ e.rmime = s.mime
+               /\ e.lo - s.thi <= TimeLimit
 
 \* the record before l is the set of the same key, and no time can have passed
 Immediate(e) ==
